@@ -295,6 +295,10 @@ class HyperparameterRangeFiniteRange(HyperparameterRange):
             upper_bound=size - 1,
             scaling=LinearScaling(),
         )
+        # Only needed for ``cast_int``, see :meth:`_map_to_int`
+        self._values = (
+            [self._map_from_int(x) for x in range(size)] if cast_int else None
+        )
 
     @property
     def scaling(self) -> Scaling:
@@ -311,6 +315,10 @@ class HyperparameterRangeFiniteRange(HyperparameterRange):
     def _map_to_int(self, y: Union[float, int]) -> int:
         if self._step_internal == 0:
             return 0
+        elif self.cast_int and y in self._values:
+            # Values are rounded after the transform, so the nearest grid point in
+            # the internal domain need not be the one ``y`` was obtained from
+            return self._values.index(y)
         else:
             # Clip first (as ``FiniteRange._map_to_int`` does): ``y`` need not lie in
             # the domain of the scaling (``cast_int`` can round a value to 0)
